@@ -678,6 +678,10 @@ def main(run, shard=(0, 1)) -> None:
     run.extra['return_probe_code_objects'] = len(probe.codes)
     reach.report(run)
     reach.check_reached(run)
+    if shard[0] == 0:
+        # the repository's own tests as an additional workload, with runtime contracts attached (rv/contracts.py)
+        from rv.repo_tests_engine import run_repo_tests_with_contracts
+        run_repo_tests_with_contracts(run, 'C05', ['test_angles.py', 'test_matrix.py', 'test_rotations.py', 'test_vec.py', 'test_instancing.py', 'test_vmf.py'] if run.tier == 'thorough' else ['test_angles.py', 'test_instancing.py'])
     run.require('invariant_evaluations', 'angles_seen_by_return_probe', 'text_forms_checked', 'copies_checked', 'freeze_thaw_checked')
 
 
